@@ -623,6 +623,8 @@ func (e *MetaCDC) Create(req *request.CreateRequest) (resp *request.CreateRespon
 			keepCollectionNames = true
 			return nil, servererror.NewServerError(deleteErr)
 		}
+		// the delete has given the names and the exclusions back already: not a second time
+		keepCollectionNames = true
 		return nil, err
 	}
 
